@@ -90,7 +90,7 @@ def contracts():
             ok = (len(args) == 2 + len(UA) and not kw2 and all(a is b for a, b in zip(args[2:], UA))
                   and z3.is_expr(args[0]) and z3.is_expr(args[1]))
             run2.oblige('site', 'callback-args:trans_time_fxn', lineno,
-                        And(args[0] == run2.cur_env['node'], args[1] == run2.cur_env['target']) if ok else BoolVal(False))
+                        And(args[0] == run2.local('node'), args[1] == run2.local('target')) if ok else BoolVal(False))
             if not ok:
                 return fresh('delay', so.XR())
             return tt_fun()(args[0], args[1])
@@ -99,7 +99,7 @@ def contracts():
     def mk_rec_cb(run, name, **kw):
         def fn(run2, args, kw2, lineno):
             ok = (len(args) == 1 + len(RA) and not kw2 and all(a is b for a, b in zip(args[1:], RA)) and z3.is_expr(args[0]))
-            run2.oblige('site', 'callback-args:rec_time_fxn', lineno, (args[0] == run2.cur_env['node']) if ok else BoolVal(False))
+            run2.oblige('site', 'callback-args:rec_time_fxn', lineno, (args[0] == run2.local('node')) if ok else BoolVal(False))
             if not ok:
                 return fresh('dur', so.XR())
             return rt_fun()(args[0])
